@@ -31,6 +31,11 @@ pub fn generate(g: &mut G, _index: u64) -> Scenario {
     let mut cause = g.pick(&CAUSES);
     let restart = g.pick(&[Restart::Default, Restart::Default, Restart::Recreate, Restart::NonRestartable]);
     let mut spec = ActorSpec { mailbox: g.mailbox(), restart, stopped_yields: g.below(2) as u32, ..Default::default() };
+    if g.chance(1, 6) {
+        // a handler timeout is no limit for the life-cycle callbacks
+        spec.timeout = Some(g.range(3, 15));
+        spec.stopped_sleep = g.range(20, 40);
+    }
     if stream {
         spec.entry = g.pick(&[
             Entry::SpawnOnStream,
